@@ -155,6 +155,22 @@ func TestC09(t *testing.T) {
 						go func() { defer wg.Done(); addErr(pr.dialOnce(side, id)) }()
 					}
 					wg.Wait()
+				case "dial-timeout-then-accept-twice":
+					// (gRPC, no multiplexing) a dial that nobody answers times out; then the other side announces
+					// that id twice in a row and nobody dials it any more
+					addErr("dial: " + pr.dialOnce(side, id))
+					b := pr.hostGRPC
+					if other(side) == "plugin" {
+						b = pr.plugGRPC
+					}
+					for i := 0; i < 2; i++ {
+						ln, err := b.Accept(id)
+						addErr("accept: " + errStr(err))
+						if err == nil {
+							defer ln.Close()
+						}
+						time.Sleep(100 * time.Millisecond)
+					}
 				case "matched-then-dial-again":
 					// (mux) an accept that is already waiting is met by its dial; then the same id is dialled a
 					// second time and nobody accepts: that dial must fail within the window
